@@ -1,6 +1,13 @@
 //! suite `access` (C13): access histories over the real `serde_arrow::Deserializer`
 //! (len / is_empty / get / iter / next / size_hint / bulk reads), on hand-assembled marrow views
 //! whose logical rows the generator knows.
+//!
+//! API coverage (notes/api_coverage.md): `iter_last` (provided `Iterator::last`), `collect_rev` (all items of a fresh
+//! iterator collected first and deserialized afterwards in REVERSE order: a `DeserializerItem` is a stand-alone handle),
+//! and `top` — the `Deserializer` itself driven through every `serde::Deserializer` method: `seq`, `tuple`,
+//! `tuple_struct`, `any`, `newtype` (documented to give the sequence of records), `ignored`, and the methods that must
+//! refuse with an error (all 25: the integers and floats, `bool`, `char`, `str`, `string`, `bytes`, `byte_buf`, `option`,
+//! `unit`, `unit_struct`, `map`, `struct`, `enum`, `identifier`).
 use crate::outcome;
 use crate::rng::Rng;
 use crate::Ctx;
@@ -87,6 +94,31 @@ fn gen_ops(rng: &mut Rng, len: usize, n: usize) -> Vec<Value> {
     ops
 }
 
+const TOP_SEQ: [&str; 5] = ["seq", "tuple", "tuple_struct", "any", "newtype"];
+const TOP_REFUSED: [&str; 25] = [
+    "bool", "i64", "u8", "f64", "char", "str", "string", "bytes", "byte_buf", "option", "unit", "unit_struct", "map", "struct", "enum",
+    "identifier", "i128", "i8", "i16", "i32", "u16", "u32", "u64", "u128", "f32",
+];
+
+/// API coverage: a few more requests per case, drawn from a stream of their own and inserted at random positions
+fn gen_api_ops(x: &mut Rng, ops: &mut Vec<Value>) {
+    let iters = ops.iter().filter(|o| o["op"] == "iter_new").count();
+    let n = 1 + x.usize(3);
+    for _ in 0..n {
+        let op = match x.below(8) {
+            0 | 1 if iters > 0 => json!({"op": "iter_last", "k": x.usize(iters)}),
+            2 | 3 => json!({"op": "collect_rev"}),
+            4 | 5 => json!({"op": "top", "how": *x.pick(&TOP_SEQ)}),
+            6 => json!({"op": "top", "how": "ignored"}),
+            _ => json!({"op": "top", "how": *x.pick(&TOP_REFUSED)}),
+        };
+        // an iterator request must come after the creation of its iterator: insert behind the last `iter_new`
+        let lo = if op["op"] == "iter_last" { ops.iter().rposition(|o| o["op"] == "iter_new").map(|p| p + 1).unwrap_or(ops.len()) } else { 0 };
+        let at = lo + x.usize(ops.len() - lo + 1);
+        ops.insert(at, op);
+    }
+}
+
 pub fn gen(ctx: &Ctx) -> Vec<Value> {
     let mut rng = Rng::new(ctx.seed);
     let n = if ctx.thorough() { 20000 } else { 1500 };
@@ -118,7 +150,8 @@ pub fn gen(ctx: &Ctx) -> Vec<Value> {
             cols.clear();
         }
         let nops = if ctx.thorough() { 5 + r.usize(60) } else { 5 + r.usize(30) };
-        let ops = gen_ops(&mut r, len, nops);
+        let mut ops = gen_ops(&mut r, len, nops);
+        gen_api_ops(&mut Rng::new(sub ^ 0xA91_C07E), &mut ops);
         out.push(json!({"id": format!("access-{c:06}"), "seed": sub, "cols": cols, "nfields": nfields, "ops": ops}));
     }
     out
@@ -162,6 +195,68 @@ fn build_array(col: &Value) -> (Field, Array, usize) {
         ),
     };
     (Field { name, data_type: dt, nullable, metadata: Default::default() }, arr, values.len())
+}
+
+/// collects the records a `serde::Deserializer` presents as a sequence (through a newtype wrapper as well)
+struct Records;
+
+impl<'de> serde::de::Visitor<'de> for Records {
+    type Value = Vec<Value>;
+    fn expecting(&self, f: &mut std::fmt::Formatter<'_>) -> std::fmt::Result {
+        write!(f, "a sequence of records")
+    }
+    fn visit_seq<A: serde::de::SeqAccess<'de>>(self, mut seq: A) -> Result<Vec<Value>, A::Error> {
+        let mut out = Vec::new();
+        while let Some(v) = seq.next_element::<Value>()? {
+            out.push(v);
+        }
+        Ok(out)
+    }
+    fn visit_newtype_struct<D: serde::Deserializer<'de>>(self, d: D) -> Result<Vec<Value>, D::Error> {
+        d.deserialize_seq(Records)
+    }
+}
+
+/// the `Deserializer` itself through one method of `serde::Deserializer`:
+/// `{"items": [..]}` | `{"unit": true}` (ignored) | `{"b": false}` (a method that must refuse returned a value)
+fn top_level(d: serde_arrow::Deserializer<'_>, how: &str) -> Result<Value, serde_arrow::Error> {
+    use serde::Deserializer as _;
+    let items = |r: Result<Vec<Value>, serde_arrow::Error>| r.map(|v| json!({ "items": v }));
+    let refused = |r: Result<Vec<Value>, serde_arrow::Error>| r.map(|_| json!({"b": false}));
+    match how {
+        "seq" => items(d.deserialize_seq(Records)),
+        "tuple" => items(d.deserialize_tuple(2, Records)),
+        "tuple_struct" => items(d.deserialize_tuple_struct("T", 2, Records)),
+        "any" => items(d.deserialize_any(Records)),
+        "newtype" => items(d.deserialize_newtype_struct("N", Records)),
+        "ignored" => serde::de::IgnoredAny::deserialize(d).map(|_| json!({"unit": true})),
+        "bool" => refused(d.deserialize_bool(Records)),
+        "i64" => refused(d.deserialize_i64(Records)),
+        "u8" => refused(d.deserialize_u8(Records)),
+        "f64" => refused(d.deserialize_f64(Records)),
+        "char" => refused(d.deserialize_char(Records)),
+        "str" => refused(d.deserialize_str(Records)),
+        "string" => refused(d.deserialize_string(Records)),
+        "bytes" => refused(d.deserialize_bytes(Records)),
+        "byte_buf" => refused(d.deserialize_byte_buf(Records)),
+        "option" => refused(d.deserialize_option(Records)),
+        "unit" => refused(d.deserialize_unit(Records)),
+        "unit_struct" => refused(d.deserialize_unit_struct("U", Records)),
+        "map" => refused(d.deserialize_map(Records)),
+        "struct" => refused(d.deserialize_struct("S", &["c0"], Records)),
+        "enum" => refused(d.deserialize_enum("E", &["A"], Records)),
+        "identifier" => refused(d.deserialize_identifier(Records)),
+        "i128" => refused(d.deserialize_i128(Records)),
+        "i8" => refused(d.deserialize_i8(Records)),
+        "i16" => refused(d.deserialize_i16(Records)),
+        "i32" => refused(d.deserialize_i32(Records)),
+        "u16" => refused(d.deserialize_u16(Records)),
+        "u32" => refused(d.deserialize_u32(Records)),
+        "u64" => refused(d.deserialize_u64(Records)),
+        "u128" => refused(d.deserialize_u128(Records)),
+        "f32" => refused(d.deserialize_f32(Records)),
+        other => panic!("harness: unknown top-level method {other}"),
+    }
 }
 
 pub fn exec(input: &Value) -> Value {
@@ -249,7 +344,15 @@ pub fn exec(input: &Value) -> Value {
                             let k = op["k"].as_u64().unwrap() as usize;
                             match iters.get_mut(k) {
                                 None => json!({"no_such_iter": true}),
-                                Some(it) => json!({"n": it.by_ref().count()}),
+                                Some(it) => {
+                                    // BY VALUE (`by_ref()` would go through `impl Iterator for &mut I`, which only forwards
+                                    // next / nth / size_hint: an override of `count` would never run); the slot is refilled
+                                    // with an iterator in the state the consumed one would be in: at the end
+                                    let taken = std::mem::replace(it, de.iter());
+                                    let n = taken.count();
+                                    while it.next().is_some() {}
+                                    json!({"n": n})
+                                }
                             }
                         }
                         "iter_hint" => {
@@ -260,6 +363,34 @@ pub fn exec(input: &Value) -> Value {
                                     let (lo, hi) = it.size_hint();
                                     json!({"hint": [lo, hi]})
                                 }
+                            }
+                        }
+                        "iter_last" => {
+                            let k = op["k"].as_u64().unwrap() as usize;
+                            match iters.get_mut(k) {
+                                None => json!({"no_such_iter": true}),
+                                Some(it) => {
+                                    let taken = std::mem::replace(it, de.iter()); // by value, see iter_count
+                                    let last = taken.last();
+                                    while it.next().is_some() {}
+                                    match last {
+                                        None => json!({"item": null}),
+                                        Some(item) => json!({"item": read_item(item)}),
+                                    }
+                                }
+                            }
+                        }
+                        "collect_rev" => {
+                            let items: Vec<serde_arrow::deserializer::DeserializerItem> = de.iter().collect();
+                            json!({"items": items.into_iter().rev().map(&read_item).collect::<Vec<Value>>()})
+                        }
+                        "top" => {
+                            let how = op["how"].as_str().unwrap();
+                            let r = outcome::run(|| top_level(serde_arrow::Deserializer::from_marrow(&fields, &views)?, how));
+                            match r.get("ok") {
+                                Some(v) => v.clone(),
+                                None if r.get("err").is_some() => json!({"b": true}),
+                                None => r,
                             }
                         }
                         "bulk" => {
